@@ -62,12 +62,12 @@ def run(ctx):
                  for cs in (("Object",) * 6, ("Variable", "Object") * 3)]
     h = gen("chains", dict(base, Mode="chain", KidConfigs=kidset(cfgs), **allb))
     nchains = len(h)
-    add(h if not q else take(h, 900, ctx.seed))
+    add(h if not q else take(h, 700, ctx.seed))
     # 3. every interleaving of Browse, BrowseNext (any continuation point ever issued or a bogus one, with and without release)
     #    and effective / ineffective modifications up to the depth bound
-    h = gen("interleavings", dict(base, MaxDepth=3 if q else 4, Pages={1} if q else {1, 2}))
+    h = gen("interleavings", dict(base, MaxDepth=3, Pages={1}, RefTypes={"HC"}) if q else dict(base, MaxDepth=4))
     ninter = len(h)
-    add(take(h, 2500 if q else 40000, ctx.seed))
+    add(take(h, 2000 if q else 40000, ctx.seed))
     # 4. longer random behaviours over the whole input space
     n = 150 if q else 2000
     seeds = {(int(ctx.seed) * 7919 + i * 104729) % 65537 for i in range(n)}
